@@ -48,7 +48,8 @@ WellFormedOut == R.out.raised \/
 \* ---------------- C03
 EmptyNotArray == R.out.raised \/ ((A = <<>>) <=> (R.out.kind = "empty"))
 ArrayShape == (R.out.kind = "json") => (R.out.array = O.array)
-OneToOne == R.out.raised \/ Len(Rep) = Len(A)
+\* a dispatcher that raises has produced no response at all
+OneToOne == IF R.out.raised THEN A = <<>> ELSE Len(Rep) = Len(A)
 IdOf(j) == LET v == R.entries[j].v IN IF v.k = "dict" /\ Has(v, "s:id") THEN Get(v, "s:id") ELSE VNone
 IdEcho == (~R.out.raised /\ Len(Rep) = Len(A)) =>
             \A j \in 1..Len(A) : Rep[j].k = "dict" /\ Has(Rep[j], "s:id") /\
@@ -65,7 +66,8 @@ IsResult(r) == IF Has(r, "s:jsonrpc") THEN Has(r, "s:result") /\ ~Has(r, "s:erro
 CodeOK(r, codes) == \/ (0 \in codes /\ IsResult(r))
                     \/ \E c \in codes \ {0} : Has(r, "s:error") /\ Get(r, "s:error").k = "dict"
                                               /\ Get(Get(r, "s:error"), "s:code") = VInt(CodeText(c))
-Codes == (~R.out.raised /\ Len(Rep) = Len(A)) => \A j \in 1..Len(A) : Rep[j].k = "dict" /\ CodeOK(Rep[j], A[j].codes)
+Codes == /\ R.out.raised => A = <<>>
+         /\ (~R.out.raised /\ Len(Rep) = Len(A)) => \A j \in 1..Len(A) : Rep[j].k = "dict" /\ CodeOK(Rep[j], A[j].codes)
 RejectedRunNothing == R.out.raised \/
    ((R.dk = "default" /\ \A j \in 1..Len(O.per) : O.per[j].calls = 0) => R.total_calls = 0)
 MessageNames == (~R.out.raised /\ Len(Rep) = Len(A)) =>
